@@ -16,6 +16,7 @@ mod hsim;
 mod hdrive;
 mod attack;
 mod expiry;
+mod tamper;
 
 fn main() {
     clock::self_test();
@@ -40,6 +41,7 @@ fn main() {
         "C12" => admission::run(),
         "C01" => attack::run_c01(),
         "C15" => expiry::run(),
+        "C02" => tamper::run(),
         "C04" => hdrive::run("C04"),
         "C13" => hdrive::run("C13"),
         "C03" => hdrive::run("C03"),
@@ -67,6 +69,7 @@ fn replay(args: &[String]) {
             "hdrive" => hdrive::replay(&v["replay"], prop),
             "attack" => attack::replay(&v["replay"], prop),
             "expiry" => expiry::replay(&v["replay"]),
+            "tamper" => tamper::replay(&v["replay"]),
             d => { eprintln!("no replayer for hsim driver {d}"); std::process::exit(2); }
         },
         e => { eprintln!("no replayer for engine {e}"); std::process::exit(2); }
